@@ -139,6 +139,9 @@ func c20Calls(x *ExtractCtx, n ast.Node, fun string) []*ast.CallExpr {
 //   on-success    invalidate only after the `if err != nil { return }` guard
 //   per-deleted   on success, invalidate every result entry with entry.Deleted
 //   none          overridden but never invalidates
+// overrides whose only invalidation precedes the inner call
+var c20EarlyInvalidation = map[string]bool{}
+
 func c20Classify(x *ExtractCtx, fd *ast.FuncDecl) (mode, keyArgs string, err error) {
 	name := fd.Name.Name
 	total := c20CountInvalidate(x, fd.Body)
@@ -207,7 +210,10 @@ func c20Classify(x *ExtractCtx, fd *ast.FuncDecl) (mode, keyArgs string, err err
 		}
 		if a, ok := c20InvalidateCall(x, s); ok {
 			if !called {
-				return "", "", fmt.Errorf("%s: invalidation before the inner call", name)
+				// invalidation BEFORE the call is handed to the inner storage (and, since there is exactly one
+				// invalidation, none afterwards): recorded as a fact of its own (`invalidationPosition`)
+				c20EarlyInvalidation[name] = true
+				return "always", a, nil
 			}
 			if guarded {
 				return "on-success", a, nil
@@ -394,6 +400,24 @@ func extractObjectCache(x *ExtractCtx) error {
 			sep = ""
 		}
 		fmt.Fprintf(w, "  (%s, %s, %s)%s\n", LeanStr(o.name), LeanStr(o.mode), LeanStr(o.keys), sep)
+	}
+	fmt.Fprintf(w, "]\n\n")
+	fmt.Fprintf(w, "/-- where an invalidating override invalidates relative to handing the call to the inner storage -/\n")
+	fmt.Fprintf(w, "def invalidationPosition : List (String × String) := [")
+	first := true
+	for _, o := range ovs {
+		if o.mode == "read" || o.mode == "none" {
+			continue
+		}
+		pos := "after"
+		if c20EarlyInvalidation[o.name] {
+			pos = "before"
+		}
+		if !first {
+			fmt.Fprintf(w, ", ")
+		}
+		first = false
+		fmt.Fprintf(w, "(%s, %s)", LeanStr(o.name), LeanStr(pos))
 	}
 	fmt.Fprintf(w, "]\n\n")
 	fmt.Fprintf(w, "/-- key constructors whose entries `invalidateObjectCaches` removes -/\n")
